@@ -100,14 +100,17 @@ def run(chk, replay=None):
             data.append(('o%d' % i,) + tuple(e[1:]))
         return CSEPCatalog(data=data, region=world.make_region(), name='obs')
 
-    def evaluate(cats_abs, obs_abs, src, noise=False):
+    def evaluate(cats_abs, obs_abs, src, noise=False, strict=False):
         """run the six tests; returns dict key -> result/Raised/None and the recorded resampled histograms.  noise: the
         forecast's source holds additional events that its configured filters remove - the evaluated forecast is the same"""
         out, hists = {}, {'rm': [], 'mll': []}
         for key, fn, kw in TESTS:
             fcst = build_forecast(world, conf_of(src, noise), to_cats(cats_abs, noise), path)
             obs = obs_catalog(obs_abs)
-            with ChoiceCapture(numpy) as cap, contextlib.redirect_stdout(io.StringIO()):
+            # (every third record: the embedding program runs with numpy's division-by-zero state set to 'raise'; the tests
+            # handle their own logarithms of zero and do not depend on the caller's error state)
+            with ChoiceCapture(numpy) as cap, contextlib.redirect_stdout(io.StringIO()), \
+                    numpy.errstate(divide=('raise' if strict else 'warn')):
                 r = guarded_timeout(30, fn, fcst, obs, **kw)
             chk.count()
             out[key] = r
@@ -197,9 +200,10 @@ def run(chk, replay=None):
         cats_abs, obs_abs = case['cats'], case['obs']
         src = pick.choice(['list', 'nostore', 'store'])
         noise = pick.random() < 0.3
-        got, hists = evaluate(cats_abs, obs_abs, src, noise)
+        strict = len(records) % 3 == 1
+        got, hists = evaluate(cats_abs, obs_abs, src, noise, strict)
         records.append({'cats': cats_abs, 'obs': obs_abs, 'rm': hists['rm'], 'mll': hists['mll']})
-        runs.append((got, src + ('+filtered' if noise else '')))
+        runs.append((got, src + ('+filtered' if noise else '') + ('+divide=raise' if strict else '')))
         if noise:
             chk.nontrivial('filtered|%s|%s|%s' % (cats_abs, obs_abs, src))
         if len(records) % 4 == 1:
